@@ -36,4 +36,74 @@ CHECKS["C12"] = dict(
                   env={"VF_EXHAUSTIVE": "1"}),
 )
 
+DP_SOURCES = ["props/datapath.cc", "shim/shim.c", "pki/pki.cc"]
+
+CHECKS["C01"] = dict(
+    harness="datapath", sources=DP_SOURCES, variant="asan", env={"VF_PROP": "C01"},
+    level="exploration", engine="rapidcheck + lower-layer shim + ASan/UBSan",
+    technique="model-based property testing (rapidcheck plans, ledger reference model) with "
+              "fault injection at the send()/recv() boundary",
+    level_text="Generated interleavings of send/receive/finish/await on both ends of real "
+               "connections of every messaging transport, with the kernel boundary scripted to "
+               "split, shorten and refuse reads and writes; every receive is compared with the "
+               "ledger of accepted sends. Sampled, not exhaustive.",
+    level_note="Trusts the Linux loopback/AF_UNIX stack, OpenSSL, and the shim's soundness rules "
+               "(only kernel-legal behaviours are injected).",
+    rule=("plan = transport (ux, uxf, tcp, tls, utls via UX, utls client->tls server, tls "
+          "client->utls server), small socket buffers or not, and up to 120 steps of "
+          "send(len from boundary set or uniform 1..65535, PRF payload) / receive(capacity full "
+          "or truncating) / finish / await+poll / shim script pushes (PASS(k) with k in "
+          "{1,2,3,4,5,7,...}, EAGAIN bursts) / close, on either end; followed by flush+drain. "
+          "Non-trivial = at least one message delivered AND (TCP-based: some read or write was "
+          "split across calls or refused by injection, or a frame was pending when a send was "
+          "refused, or a truncating receive was followed by another receive; UX: kernel "
+          "back-pressure EAGAIN, injected EAGAIN or truncation-then-receive), measured from shim "
+          "counters. Distinct = FNV-1a of the plan."),
+    assumptions=["receive capacity 0 and messages of length 0 / > 65535 are outside C01's domain "
+                 "(C03 covers the latter)",
+                 "blocking-mode sides are exercised by the C04 harness"],
+    quick=dict(workers=16, cases=250, maxsize=60),
+    thorough=dict(workers=16, cases=5000, maxsize=120),
+)
+
+CHECKS["C17"] = dict(
+    harness="datapath", sources=DP_SOURCES, variant="asan", env={"VF_PROP": "C17"},
+    level="exploration", engine="rapidcheck + lower-layer shim + ASan/UBSan",
+    technique="model-based property testing: counter attributes compared with the harness ledger "
+              "after every step of generated traffic histories",
+    level_text="All eight (four on byte streams) xcm.* counters are read on both endpoints after "
+               "every step of generated histories on all nine transport configurations and "
+               "compared with the ledger (exact equalities for from_app/to_app, inequalities, "
+               "prefix sums for to_lower/from_lower, equality at quiescence). Sampled.",
+    level_note="Trusts the ledger kept by the harness (what xcm_send accepted and xcm_receive "
+               "returned) and the shim's soundness rules.",
+    rule=("plans as in C01/C02 on all transports incl. btcp/btls, with truncating receives, "
+          "refused sends and partial flushes; counters read on both ends after every step. "
+          "Non-trivial = traffic was delivered AND the history contains a truncating receive, a "
+          "refused send or I/O split across calls. Distinct = FNV-1a of the plan."),
+    assumptions=["cross-transport identity is checked through the common ledger: every transport "
+                 "must equal the same transport-independent expected values"],
+    quick=dict(workers=16, cases=200, maxsize=60),
+    thorough=dict(workers=16, cases=4000, maxsize=120),
+)
+
+CHECKS["C02"] = dict(
+    harness="datapath", sources=DP_SOURCES, variant="asan", env={"VF_PROP": "C02"},
+    level="exploration", engine="rapidcheck + lower-layer shim + ASan/UBSan",
+    technique="model-based property testing (byte-stream ledger: prefix/equality) with short "
+              "writes/reads and EAGAIN injected below XCM and below OpenSSL",
+    level_text="Generated send/receive interleavings on btcp and btls with every xcm_send return "
+               "value recorded; the received concatenation must at every receive be a prefix of "
+               "the accepted concatenation and equal after flush. Sampled.",
+    level_note="Trusts loopback TCP, OpenSSL record layer, shim soundness rules.",
+    rule=("plan = btcp|btls, small buffers or not, up to 120 steps of send(len 1..200000)/"
+          "receive(cap 1..70000)/finish/scripts/close. After a refused send the next buffer is "
+          "whatever the next step says (same, longer, shorter or different bytes) except where a "
+          "known finding is excluded. Non-trivial = bytes delivered AND (partial acceptance or "
+          "refused send or split I/O)."),
+    assumptions=["zero-length sends and capacity 0 are outside the domain"],
+    quick=dict(workers=16, cases=200, maxsize=60),
+    thorough=dict(workers=16, cases=4000, maxsize=120),
+)
+
 NOT_APPLICABLE = []
